@@ -1926,7 +1926,7 @@ func (ex *Exec) siteAsserts(fr *frame, st *State, cc *ssa.CallCommon, instr ssa.
 	if cc.IsInvoke() {
 		name = cc.Method.Name()
 	} else if f := cc.StaticCallee(); f != nil {
-		name = f.Name()
+		name = siteCalleeName(f)
 	} else if _, isB := cc.Value.(*ssa.Builtin); !isB {
 		name = "dyn" // a call of a function value (`assert call:dyn ...`)
 	}
@@ -1956,7 +1956,7 @@ func (ex *Exec) siteAsserts(fr *frame, st *State, cc *ssa.CallCommon, instr ssa.
 			if common.IsInvoke() {
 				n = common.Method.Name()
 			} else if f := common.StaticCallee(); f != nil {
-				n = f.Name()
+				n = siteCalleeName(f)
 			} else if _, isB := common.Value.(*ssa.Builtin); !isB {
 				n = "dyn"
 			}
@@ -2019,4 +2019,13 @@ func sigKey(sig *types.Signature) string {
 		r = "(" + r + ")"
 	}
 	return "func(" + strings.Join(ps, ",") + ")" + r
+}
+
+// siteCalleeName: the name a site assertion uses for a static callee; an instance of a generic function is named
+// like the generic function (Contains, not Contains[[]T,T]).
+func siteCalleeName(f *ssa.Function) string {
+	if o := f.Origin(); o != nil && o != f {
+		return o.Name()
+	}
+	return f.Name()
 }
